@@ -36,10 +36,10 @@ theorem anyDirOKA_of (P : WAnyPA) (h : anyOKA P.toAny = true) : anyDirOKA P := b
   | work m => exact ports_dir_of_tokOKA m h
   | leaf lf =>
     intro p hp
-    simp only [WAnyPA.toAny, anyOKA, leafOK, Bool.and_eq_true, List.all_eq_true] at h
+    simp only [WAnyPA.toAny, anyOKA, leafOK, inoutify, Bool.and_eq_true, List.all_eq_true, List.mem_map,
+      forall_exists_index, and_imp, forall_apply_eq_imp_iff₂] at h
     have hp' := h.1.2 p hp
-    simp only [portOK, Bool.and_eq_true, bne_iff_ne, ne_eq] at hp'
-    exact ⟨hp'.1.1.1, List.isEmpty_iff.mp hp'.2⟩
+    exact List.isEmpty_iff.mp hp'.2
 
 /-- **c04_text_hierA.**  Write-then-read of a HIERARCHICAL netlist WITH ASSIGNMENT INSTANCES from characters
     (`write_blackbox = True`): the text the writer produces — top module, then every other definition in the order
@@ -76,17 +76,11 @@ theorem c04_text_hierA (n : Text.WNet) (T : Text.WDef) (kT : Nat) (ks : List Nat
       have hdtop := ports_dir_of_tokOKA m' h5
       have hdl : ∀ P ∈ Ps, anyDirOKA P := fun P hP => anyDirOKA_of P (h6 _ (List.mem_map.mpr ⟨P, hP, rfl⟩))
       have hlex := lexV_pieces _ (filePHA n m' Ps) (chars_filePHA n m' Ps).symm h9 h8
-      rw [toks_filePHA n m' Ps hdtop hdl] at hlex
+      have hfil := toks_filePHA n m' Ps hdtop hdl h10 h5 (fun P hP => h6 _ (List.mem_map.mpr ⟨P, hP, rfl⟩))
       refine ⟨_, fin, s, hcv, ?_, a4, a6, a7, a8⟩
       rw [readV_eq, hlex]
       unfold readT
-      have hc1 : Text.isCommentTok "//Generated from netlist by SpyDrNet" = true := by decide +kernel
-      rw [parse_hierA _ m'.toA (Ps.map WAnyPA.toAny) (by
-        intro c hc
-        simp only [List.mem_cons, List.mem_nil_iff, or_false] at hc
-        rcases hc with e | e
-        · rw [e]; exact hc1
-        · rw [e]; exact h10) h5 h6]
+      rw [parseV_dropC _ m'.toA (Ps.map WAnyPA.toAny) hfil h5 h6]
       exact a3
 /-! ### non-vacuity -/
 
@@ -96,7 +90,8 @@ def exHMA : WModPA :=
    [⟨"z", "wire", none, []⟩, ⟨"v", "wire", some (1, 0), []⟩, ⟨"w", "wire", none, []⟩, ⟨"y", "wire", none, []⟩,
     ⟨"a", "wire", some (1, 0), []⟩],
    [⟨"u0", "sub", [], [], [("p", .atom (.part "a" 1 0)), ("q", .atom (.id "w"))]⟩,
-    ⟨"u1", "LUT1", [], [], [("I0", .atom (.id "w")), ("O", .atom (.id "y"))]⟩]⟩,
+    ⟨"u1", "LUT1", [], [], [("I0", .atom (.id "w")), ("O", .atom (.id "y"))]⟩,
+    ⟨"u2", "BBX", [], [], [("P", .atom (.id "z"))]⟩]⟩,
    [(.part "v" 1 0, .part "a" 1 0), (.id "z", .id "w")], [("WIDTH", "2")]⟩
 
 def exHSubA : WModPA :=
@@ -106,10 +101,23 @@ def exHSubA : WModPA :=
    [⟨"g0", "LUT1", [], [], [("I0", .atom (.bit "p" 0)), ("O", .atom (.id "r"))]⟩]⟩,
    [(.id "q", .id "r")], [("DEPTH", "4'h3"), ("MODE", "\"fast\"")]⟩
 
-def exHPsA : List WAnyPA := [.work exHSubA, .leaf ⟨"LUT1", [⟨"I0", .inp, none, []⟩, ⟨"O", .out, none, []⟩]⟩]
+def exHPsA : List WAnyPA := [.work exHSubA, .leaf ⟨"LUT1", [⟨"I0", .inp, none, []⟩, ⟨"O", .out, none, []⟩]⟩,
+  .leaf ⟨"BBX", [⟨"P", .undef, none, []⟩]⟩]
+
+theorem exHLeafU_ok : leafOK (inoutify ⟨"BBX", [⟨"P", .undef, none, []⟩]⟩) = true := by
+  have e : inoutify ⟨"BBX", [⟨"P", .undef, none, []⟩]⟩ = ⟨"BBX", [⟨"P", .inout, none, []⟩]⟩ := rfl
+  rw [e]
+  have N : ∀ nm, nameK nm = true → nameTokB (nameT nm) nm = true := nameK_sound
+  have c1 : cleanToks (leafCore ⟨"BBX", [⟨"P", .inout, none, []⟩]⟩) = true := by decide +kernel
+  simp only [leafOK, List.all_cons, List.all_nil, portOK, rangeOK, Bool.and_eq_true, Bool.and_true, List.isEmpty_nil, c1]
+  repeat' constructor
+  all_goals first
+    | exact N _ (by decide +kernel)
+    | decide
+    | simp
 
 theorem exNetHA_ast : astOfA exNetHA exTopHA = some exHMA := by rfl
-theorem exNetHA_Ps : (laterA exNetHA [1, 2, 3, 4]).mapM (astAnyPA exNetHA) = some exHPsA := by rfl
+theorem exNetHA_Ps : (laterA exNetHA [1, 2, 3, 4, 5]).mapM (astAnyPA exNetHA) = some exHPsA := by rfl
 
 theorem modOKA_of (m : WModA) (h : modOK m.base.attrs m.base.name (m.base.ports.map (·.name)) m.sitems = true)
     (hp : mparamsOK m.params = true) (hc : cleanToks (tokensOfA m) = true) : tokOKA m = true := by
@@ -155,16 +163,19 @@ theorem exHSubA_tokOK : tokOKA exHSubA.toA = true := by
     | simp
 
 /-- non-vacuity of the hierarchical end-to-end theorem with assigns -/
-theorem exNetHA_struct : fragStructHA exNetHA exTopHA 0 [1, 2, 3, 4] = true := by
+theorem exNetHA_struct : fragStructHA exNetHA exTopHA 0 [1, 2, 3, 4, 5] = true := by
   unfold fragStructHA
   rw [exNetHA_ast, exNetHA_Ps]
   simp only
-  have a1 : (composeOrder exNetHA == [0, 1, 2, 3, 4]) = true := by decide
-  have a2 : fragHierA exNetHA exTopHA (laterA exNetHA [1, 2, 3, 4]) = true := exNetHA_frag
+  have a1 : (composeOrder exNetHA == [0, 1, 2, 3, 4, 5]) = true := by decide
+  have a2 : fragHierA exNetHA exTopHA (laterA exNetHA [1, 2, 3, 4, 5]) = true := exNetHA_frag
   have a3 : topTextBA exNetHA exTopHA = true := by decide
-  have a4 : (laterA exNetHA [1, 2, 3, 4]).all (anyTextBA exNetHA) = true := by decide
+  have a4 : (laterA exNetHA [1, 2, 3, 4, 5]).all (anyTextBA exNetHA) = true := by decide
   have a6 : (exHPsA.map WAnyPA.toAny).all anyOKA = true := by
-    simp only [exHPsA, List.map_cons, List.map_nil, List.all_cons, List.all_nil, WAnyPA.toAny, anyOKA, exHSubA_tokOK, exHLeaf_ok]
+    have e1 : inoutify ⟨"LUT1", [⟨"I0", .inp, none, []⟩, ⟨"O", .out, none, []⟩]⟩ =
+        ⟨"LUT1", [⟨"I0", .inp, none, []⟩, ⟨"O", .out, none, []⟩]⟩ := rfl
+    simp only [exHPsA, List.map_cons, List.map_nil, List.all_cons, List.all_nil, WAnyPA.toAny, anyOKA, exHSubA_tokOK, e1,
+      exHLeaf_ok, exHLeafU_ok]
     rfl
   have a8 : (filePHA exNetHA exHMA exHPsA).all Piece.ok = true := by decide +kernel
   have a9 : adjOK (filePHA exNetHA exHMA exHPsA) = true := by decide +kernel
@@ -177,9 +188,9 @@ theorem exNetHA_roundtrip :
     ∃ text fin s, Text.composeV exNetHA optsBB = .ok (text, fin) ∧ Parse.readV text = .ok s ∧ s.top = some exTopHA.name ∧
       (∃ D ∈ s.defs, D.name = exTopHA.name ∧ viewD D = viewTA exNetHA exTopHA ∧ D.lib = some "work" ∧
         D.params = paramsOf exTopHA) ∧
-      (∀ r ∈ laterA exNetHA [1, 2, 3, 4], isPrim r = false →
+      (∀ r ∈ laterA exNetHA [1, 2, 3, 4, 5], isPrim r = false →
         ∃ D ∈ s.defs, D.name = r.name ∧ viewD D = viewTA exNetHA r ∧ D.lib = some "work" ∧ D.params = paramsOf r) ∧
-      (∀ r ∈ laterA exNetHA [1, 2, 3, 4], isPrim r = true → ∃ L ∈ s.defs, L.name = r.name ∧ L.lib = some "hdi_primitives" ∧
+      (∀ r ∈ laterA exNetHA [1, 2, 3, 4, 5], isPrim r = true → ∃ L ∈ s.defs, L.name = r.name ∧ L.lib = some "hdi_primitives" ∧
         ifaceD L = ifaceT r) :=
-  c04_text_hierA exNetHA exTopHA 0 [1, 2, 3, 4] rfl exNetHA_struct
+  c04_text_hierA exNetHA exTopHA 0 [1, 2, 3, 4, 5] rfl exNetHA_struct
 end Spydr.Verilog.Elab
